@@ -64,10 +64,11 @@ CLAIMED = {
             "keys are injective in the lookup parameters, and no storage is re-entered while borrowed. Complete "
             "overwrite of length-set buffers before reads is not decided.", "4/C10"),
     "C11": ("SHIFTGUARD (dominating zero-width guard for `BITS - n` shifts, call-site guards for private helpers) + "
-            "CALLSET + SIBLING + FILLSTATE (storage growth dominated by a read of the word-level fill) + GROWTH/ceil (resize amount = ceil(bits/word) on a full period of the extracted summary) + compile-fail witnesses for the sealed operand traits",
+            "CALLSET + SIBLING + FILLSTATE (storage growth dominated by a read of the word-level fill) + GROWTH/ceil (resize amount = ceil(bits/word) on a full period of the extracted summary) + LENGTH (effect summary of self.bitlength per sink operation = initial + ideal bit count, as linear forms over case leaves) + PADFORMULA + WIDTH/const + compile-fail witnesses for the sealed operand traits",
             "Narrow: zero-width operands are guarded in every sink implementation, default methods are built only "
-            "from required ones, both write_bytes_aligned overrides align first, and foreign operand types cannot be "
-            "written. Bit-exactness of the shift/carry arithmetic is numerical and not decided.", "4/C11"),
+            "from required ones, both write_bytes_aligned overrides align first, foreign operand types cannot be "
+            "written, and every operation of both in-memory sinks advances the recorded bit length by exactly the "
+            "ideal count (the 'same length' clause). Bit-exactness of the shift/carry arithmetic is numerical and not decided.", "4/C11"),
     "C20": ("XCFG: normalised MIR fingerprints of the encode/serialise closure compared across feature "
             "configurations + control-dependence obligations on the enumerated gates",
             "The set of bodies reachable from the encode and serialise entry points without entering a gate, and the "
